@@ -1,5 +1,6 @@
 import Driver.Util
 import ClairModel.Model.Match
+import ClairModel.Model.MatchProto
 
 /-!
   Line-protocol driver of the C05 functional model.
@@ -29,6 +30,8 @@ structure Scenario where
   rows : List Row := []
   matchers : List Matcher := []
   enrichers : List Enricher := []
+  /-- state of the protocol machine (lines starting with `p`) -/
+  proto : ClairModel.MatchProto.State := ClairModel.MatchProto.init 1 []
 
 /-! ### the stub store (go/internal/c05 `stubStore.Get`) -/
 
@@ -161,9 +164,46 @@ def scan (s : Scenario) (api ctx : String) : String :=
     | none => "err"
     | some (r, em) => s!"ok {renderReport r} E={renderLists em}"
 
+/-! ### protocol-machine lines -/
+
+def parseProtoOp (ws : List String) : Option ClairModel.MatchProto.Op :=
+  match ws with
+  | ["handoff", w] => w.toNat?.map .handoff
+  | ["senderBreak"] => some .senderBreak
+  | ["closeM"] => some .closeM
+  | ["check", w, b] => do pure (.check (← w.toNat?) ((← b.toNat?) != 0))
+  | ["finish", w, b] => do pure (.finish (← w.toNat?) ((← b.toNat?) != 0))
+  | ["sendV", w] => w.toNat?.map .sendV
+  | ["workerExit", w] => w.toNat?.map .workerExit
+  | ["senderWait"] => some .senderWait
+  | ["closeV"] => some .closeV
+  | ["collect"] => some .collect
+  | ["collectorEnd"] => some .collectorEnd
+  | ["cancelParent"] => some .cancelParent
+  | _ => none
+
+def renderOut : ClairModel.MatchProto.Out → String
+  | .ok => "ok"
+  | .disabled => "disabled"
+  | .panic => "panic"
+
+def b01 (b : Bool) : String := if b then "1" else "0"
+
 def stepLine (s : Scenario) (l : String) : Scenario × String :=
   if l == "reset" then ({}, "ok") else
   match Driver.words l with
+  | ["p-init", lim, n] =>
+    match lim.toNat?, n.toNat? with
+    | some lim, some n => ({ s with proto := ClairModel.MatchProto.init lim (List.range n) }, "ok")
+    | _, _ => (s, "bad-op")
+  | "p" :: ws =>
+    match parseProtoOp ws with
+    | some op =>
+      let (p', o) := ClairModel.MatchProto.step s.proto op
+      ({ s with proto := p' }, renderOut o)
+    | none => (s, "bad-op")
+  | ["p-final"] =>
+    (s, s!"final={b01 (ClairModel.MatchProto.final s.proto)} err={b01 s.proto.senderErr} collected={s.proto.collected.length}")
   | ["pkg", k, i, n] =>
     match k.toNat?, i.toNat?, n.toNat? with
     | some k, some i, some n => ({ s with pkgs := s.pkgs ++ [⟨k, i, n⟩] }, "ok")
